@@ -73,6 +73,8 @@ fn workload(d: &Dispatch) {
         let b = tracing::span!(tracing::Level::INFO, "B");
         b.follows_from(&a);
         a.in_scope(|| {
+            // entering the span that is already current is one more occurrence of enter / exit
+            a.in_scope(|| {});
             tracing::event!(name: "ev", tracing::Level::INFO, "hello");
         });
         let a2 = a.clone();
@@ -159,8 +161,8 @@ fn judge(info: &c09_stacks::Info, c: &StackCfg, out: &Out, v: &mut Vec<String>) 
     expect_ordered("on_new_span", "B#", 1, v);
     expect_ordered("on_record", "", 1, v);
     expect_ordered("on_follows_from", "", 1, v);
-    expect_ordered("on_enter", "", 1, v);
-    expect_ordered("on_exit", "", 1, v);
+    expect_ordered("on_enter", "", 2, v);
+    expect_ordered("on_exit", "", 2, v);
     expect_ordered("on_event", "ev", 1, v);
     // the recording base collector reports every try_close as a close (3 handles); the Registry only the last of each span
     expect_ordered("on_close", "", if info.base_rc { 3 } else { 2 }, v);
@@ -192,7 +194,7 @@ fn judge(info: &c09_stacks::Info, c: &StackCfg, out: &Out, v: &mut Vec<String>) 
     }
     // the base collector (id-changing recorder) sees each call once as well
     if info.base_rc {
-        for (kind, times) in [("on_register_dispatch", 1usize), ("new_span", 2), ("record", 1), ("record_follows_from", 1), ("enter", 1), ("exit", 1), ("clone_span", 1)] {
+        for (kind, times) in [("on_register_dispatch", 1usize), ("new_span", 2), ("record", 1), ("record_follows_from", 1), ("enter", 2), ("exit", 2), ("clone_span", 1)] {
             let got = out.log.iter().filter(|r| r.who == 'C' && r.kind == kind).count();
             if got != times {
                 v.push(format!("base collector saw {} x{}, expected x{}", kind, got, times));
@@ -217,7 +219,7 @@ fn judge_filter(c: &StackCfg, out: &Out, v: &mut Vec<String>) {
         v.push("the wrapped filter was never asked event_enabled()".into());
     }
     // L2 (unfiltered neighbour) sees everything exactly once
-    for (kind, what, n) in [("on_new_span", "A#", 1), ("on_new_span", "B#", 1), ("on_record", "", 1), ("on_follows_from", "", 1), ("on_enter", "", 1), ("on_exit", "", 1), ("on_event", "ev", 1), ("on_event", "veto_meta", 1), ("on_event", "veto_event", 1), ("on_close", "", 2), ("on_register_dispatch", "", 1)] {
+    for (kind, what, n) in [("on_new_span", "A#", 1), ("on_new_span", "B#", 1), ("on_record", "", 1), ("on_follows_from", "", 1), ("on_enter", "", 2), ("on_exit", "", 2), ("on_event", "ev", 1), ("on_event", "veto_meta", 1), ("on_event", "veto_event", 1), ("on_close", "", 2), ("on_register_dispatch", "", 1)] {
         let got = count('L', 2, kind, what);
         let want = if c.veto_enabled_layer == 2 && c.interest == 1 && what == "veto_meta" || c.veto_event_layer == 2 && what == "veto_event" { 0 } else { n };
         if got != want {
@@ -225,7 +227,7 @@ fn judge_filter(c: &StackCfg, out: &Out, v: &mut Vec<String>) {
         }
     }
     // L1 sees everything except what its filter (or a global veto by L2) rejected
-    for (kind, what, n) in [("on_new_span", "A#", 1), ("on_new_span", "B#", 1), ("on_record", "", 1), ("on_follows_from", "", 1), ("on_enter", "", 1), ("on_exit", "", 1), ("on_event", "ev", 1), ("on_close", "", 2), ("on_register_dispatch", "", 1)] {
+    for (kind, what, n) in [("on_new_span", "A#", 1), ("on_new_span", "B#", 1), ("on_record", "", 1), ("on_follows_from", "", 1), ("on_enter", "", 2), ("on_exit", "", 2), ("on_event", "ev", 1), ("on_close", "", 2), ("on_register_dispatch", "", 1)] {
         let got = count('L', 1, kind, what);
         if got != n {
             v.push(format!("filtered layer L1 (accept-all filter) saw {}({}) x{}, expected x{}", kind, what, got, n));
